@@ -113,12 +113,17 @@ def dictated(g, cands, lookahead):
     return 'undictated', 'unexpected candidate set %s' % (cands,)
 
 
-def kernel_name(lalr, s):
+def kernel_name(lalr, s, legacy=False):
+    """the kernel items of a state as text; sorted as TEXT, so that the name (and its hash) does not depend on the order
+    in which the rule functions stand in rules.py"""
     items = []
     for p, d in sorted(lalr.kernels[s]):
         lhs, rhs = lalr.g.prods[p]
         items.append('%s -> %s . %s' % (lhs, ' '.join(rhs[:d]), ' '.join(rhs[d:])))
-    return ' | '.join(x.strip() for x in items)
+    items = [x.strip() for x in items]
+    if not legacy:
+        items.sort()
+    return ' | '.join(items)
 
 
 def cell_name(lalr, s, cands, a):
